@@ -10,8 +10,8 @@ package transmit
 // answer, so that after every environment action (Enqueue, Tick, Respond,
 // Stop) the component is quiescent: each sendBatch goroutine is blocked on a
 // held request, asleep on the fake clock, or finished. The specification puts
-// the counts that identify that quiescent point (requests on the wire so far,
-// gauge Downs, stale passes, sleepers, Stop returned) into the action label
+// what identifies that quiescent point (events still pending, requests on the
+// wire so far, gauge Downs, sleepers, Stop returned) into the action label
 // (`wait`), which is the barrier the harness waits for - there is no sleep and
 // no wall-clock dependency except a generous deadline that only expires when
 // the code has already diverged from the specification.
@@ -493,16 +493,147 @@ func c26Sized(id int, tr map[string]any, size int) (*types.Event, error) {
 }
 
 // ---------------------------------------------------------------------------
+// the clock given to the transmission
+//
+// c26Clock is a clockwork fake clock whose tickers are driven by the harness:
+// after the clock has moved, every ticker that has come due is handed its tick
+// with a blocking send (as if its consumer kept up), and one more tick of a
+// ticker that was due more than once serves as a fence - when the consumer
+// takes it, it has finished whatever the earlier ticks made it do. Nothing
+// depends on how many tickers the transmission creates, on their periods or on
+// how many passes it makes. Sleep is counted so that "a sendBatch goroutine is
+// asleep on the clock" is observable.
+
+type c26Ticker struct {
+	c       *c26Clock
+	ch      chan time.Time
+	period  time.Duration
+	next    time.Time
+	stopped bool
+}
+
+func (t *c26Ticker) Chan() <-chan time.Time { return t.ch }
+func (t *c26Ticker) Reset(d time.Duration) {
+	t.c.mu.Lock()
+	t.period, t.next, t.stopped = d, t.c.FakeClock.Now().Add(d), false
+	t.c.mu.Unlock()
+}
+func (t *c26Ticker) Stop() {
+	t.c.mu.Lock()
+	t.stopped = true
+	t.c.mu.Unlock()
+}
+
+type c26Clock struct {
+	*clockwork.FakeClock
+	mu       sync.Mutex
+	tickers  []*c26Ticker
+	sleeping int
+	sig      c26Signal
+}
+
+func (c *c26Clock) NewTicker(d time.Duration) clockwork.Ticker {
+	if d <= 0 {
+		panic("non-positive interval for NewTicker")
+	}
+	t := &c26Ticker{c: c, ch: make(chan time.Time), period: d}
+	c.mu.Lock()
+	t.next = c.FakeClock.Now().Add(d)
+	c.tickers = append(c.tickers, t)
+	c.mu.Unlock()
+	c.sig.ping()
+	return t
+}
+
+func (c *c26Clock) Sleep(d time.Duration) {
+	tm := c.FakeClock.NewTimer(d) // registered at the current instant, before it is counted
+	c.mu.Lock()
+	c.sleeping++
+	c.mu.Unlock()
+	c.sig.ping()
+	<-tm.Chan()
+	c.mu.Lock()
+	c.sleeping--
+	c.mu.Unlock()
+	c.sig.ping()
+}
+
+func (c *c26Clock) sleepers() int {
+	c.mu.Lock()
+	defer c.mu.Unlock()
+	return c.sleeping
+}
+
+func (c *c26Clock) nTickers() int {
+	c.mu.Lock()
+	defer c.mu.Unlock()
+	return len(c.tickers)
+}
+
+// send hands one tick to t's consumer; false if nobody took it for a long time.
+func (c *c26Clock) send(t *c26Ticker, now time.Time) bool {
+	for strikes := 0; strikes < 2; strikes++ {
+		select {
+		case t.ch <- now:
+			return true
+		case <-time.After(15 * time.Second):
+		}
+	}
+	return false
+}
+
+// step moves the clock by d and delivers the ticks that came due. It returns a
+// description of the problem if a ticker's consumer does not take its tick.
+func (c *c26Clock) step(d time.Duration) string {
+	c.FakeClock.Advance(d) // fires Sleep timers
+	now := c.FakeClock.Now()
+	type due struct {
+		t *c26Ticker
+		n int
+	}
+	var dues []due
+	c.mu.Lock()
+	for _, t := range c.tickers {
+		if t.stopped {
+			continue
+		}
+		n := 0
+		for !t.next.After(now) {
+			t.next = t.next.Add(t.period)
+			n++
+		}
+		if n > 0 {
+			dues = append(dues, due{t, n})
+		}
+	}
+	c.mu.Unlock()
+	var fence *c26Ticker
+	for _, x := range dues {
+		if !c.send(x.t, now) {
+			return fmt.Sprintf("nobody took the tick of the %v ticker", x.t.period)
+		}
+		if fence == nil || x.n > 1 {
+			fence = x.t
+		}
+	}
+	if fence != nil && !c.send(fence, now) {
+		return fmt.Sprintf("the consumer of the %v ticker did not come back for another tick", fence.period)
+	}
+	return ""
+}
+
+// ---------------------------------------------------------------------------
 // the harness
 
 type c26Wait struct {
-	reqs, downs, stale, sleepers int
-	stopped                      bool
+	pend                  string // canonical text of the pending event ids
+	reqs, downs, sleepers int
+	stopped               bool
 }
 
 type c26Harness struct {
 	dt        *DirectTransmission
-	clock     *clockwork.FakeClock
+	clock     *c26Clock
 	met       *c26Metrics
 	log       *c26Logger
 	wd        *c26World
@@ -533,7 +664,7 @@ func (h *c26Harness) teardown() {
 	}
 	deadline := time.After(20 * time.Second)
 	for {
-		h.clock.Advance(70 * time.Second) // wakes every Retry-After sleeper
+		h.clock.FakeClock.Advance(70 * time.Second) // wakes every Retry-After sleeper
 		select {
 		case <-h.stopDone:
 			h.dt = nil
@@ -560,11 +691,11 @@ func (h *c26Harness) Reset(init map[string]any) error {
 		return fmt.Errorf("bad params %v", p)
 	}
 	h.sig = make(c26Signal, 1)
-	h.clock = clockwork.NewFakeClockAt(c26T0)
+	h.clock = &c26Clock{FakeClock: clockwork.NewFakeClockAt(c26T0), sig: h.sig}
 	h.met = c26NewMetrics(h.sig)
 	h.log = &c26Logger{errIDs: map[int]bool{}}
 	c26WalkSeq++
-	h.wd = &c26World{seen: map[string]int{}, sig: h.sig, clock: h.clock, id: strconv.Itoa(c26WalkSeq)}
+	h.wd = &c26World{seen: map[string]int{}, sig: h.sig, clock: h.clock.FakeClock, id: strconv.Itoa(c26WalkSeq)}
 	c26Cur.Store(h.wd)
 	h.nEvents, h.stopBegun, h.stuck = 0, false, ""
 	h.stopDone = make(chan struct{})
@@ -579,25 +710,16 @@ func (h *c26Harness) Reset(init map[string]any) error {
 		return err
 	}
 	h.dt = dt
-	ctx, cancel := context.WithTimeout(context.Background(), 20*time.Second)
-	defer cancel()
-	if err := h.clock.BlockUntilContext(ctx, 2); err != nil { // both tickers of dispatchStaleBatches
-		return fmt.Errorf("stale-dispatch goroutine did not create its tickers: %w", err)
+	// the stale-dispatch goroutine creates its ticker(s) right after Start; wait for the first,
+	// a later one merely starts its period later
+	for deadline := time.After(20 * time.Second); h.clock.nTickers() == 0; {
+		select {
+		case <-h.sig:
+		case <-deadline:
+			return nil // no ticker at all: the walk will show what that does to the batches
+		}
 	}
 	return nil
-}
-
-func (h *c26Harness) tickers() int {
-	if h.stopBegun {
-		return 0
-	}
-	return 2
-}
-
-func (h *c26Harness) atLeast(n int) bool {
-	ctx, cancel := context.WithCancel(context.Background())
-	cancel()
-	return h.clock.BlockUntilContext(ctx, n) == nil
 }
 
 func (h *c26Harness) counts() c26Wait {
@@ -610,8 +732,8 @@ func (h *c26Harness) counts() c26Wait {
 		stopped = true
 	default:
 	}
-	return c26Wait{reqs: arrived, downs: h.met.read(h.met.down, h.dt.metricKeys.updownQueuedItems),
-		stale: h.met.read(h.met.hist, h.dt.metricKeys.staleDispatchTime), stopped: stopped}
+	return c26Wait{pend: fmt.Sprint(h.pending()), reqs: arrived, downs: h.met.read(h.met.down, h.dt.metricKeys.updownQueuedItems),
+		sleepers: h.clock.sleepers(), stopped: stopped}
 }
 
 // barrier waits until the counts of one of the quiescent points the
@@ -631,22 +753,10 @@ func (h *c26Harness) barrier(waits []c26Wait) {
 		o := h.counts()
 		over := true
 		for _, w := range waits {
-			if o.reqs == w.reqs && o.downs == w.downs && o.stale == w.stale && o.stopped == w.stopped {
-				var err error
-				for try := 0; try < 2; try++ {
-					ctx, cancel := context.WithTimeout(context.Background(), patience)
-					err = h.clock.BlockUntilContext(ctx, h.tickers()+w.sleepers)
-					cancel()
-					if err == nil {
-						break
-					}
-				}
-				if err != nil {
-					h.stuck = fmt.Sprintf("fewer than %d goroutines asleep on the clock", w.sleepers)
-				}
+			if o == w {
 				return
 			}
-			if o.reqs <= w.reqs && o.downs <= w.downs && o.stale <= w.stale && (!o.stopped || w.stopped) {
+			if o.pend == w.pend && o.reqs <= w.reqs && o.downs <= w.downs && (!o.stopped || w.stopped) {
 				over = false
 			}
 		}
@@ -685,7 +795,15 @@ func c26Waits(a map[string]any) []c26Wait {
 	ws, _ := a["wait"].([]any)
 	for _, x := range ws {
 		m, _ := x.(map[string]any)
-		out = append(out, c26Wait{reqs: verifkit.Int(m, "reqs"), downs: verifkit.Int(m, "downs"), stale: verifkit.Int(m, "stale"),
+		ids := []int{}
+		ps, _ := m["pendSet"].([]any)
+		for _, x := range ps {
+			if f, ok := x.(float64); ok {
+				ids = append(ids, int(f))
+			}
+		}
+		sort.Ints(ids)
+		out = append(out, c26Wait{pend: fmt.Sprint(ids), reqs: verifkit.Int(m, "reqs"), downs: verifkit.Int(m, "downs"),
 			sleepers: verifkit.Int(m, "sleepers"), stopped: verifkit.Bool(m, "stopped")})
 	}
 	return out
@@ -712,7 +830,10 @@ func (h *c26Harness) Apply(a map[string]any) (err error) {
 		}
 		h.dt.EnqueueEvent(ev)
 	case "Tick":
-		h.clock.Advance(c26Unit)
+		if msg := h.clock.step(c26Unit); msg != "" {
+			h.stuck = msg
+			return nil
+		}
 	case "Respond":
 		m := verifkit.Int(a, "m")
 		var req *c26Req
@@ -786,10 +907,7 @@ func (h *c26Harness) Project() (any, error) {
 		held = append(held, e)
 	}
 	h.wd.mu.Unlock()
-	sleepers := 0
-	for h.atLeast(h.tickers() + sleepers + 1) {
-		sleepers++
-	}
+	sleepers := h.clock.sleepers()
 	k := h.dt.metricKeys
 	g := func(name string) int { return h.met.read(h.met.ctr, name) }
 	errs := []int{}
